@@ -207,6 +207,11 @@ def linear(ctx):
     fo = ctx.fn("tensor::Tensor::ones")
     lits = {x["v"] for x in walk(fo["body"]) if x.get("k") == "lit" and c.ty(x) == "f32"}
     ctx.check("R07.1", "Tensor::ones", lits == {"1.0"}, "ones-fills-with:" + ",".join(sorted(lits)), c.loc(fo), "Tensor::ones fills 1.0")
+    from . import c14
+    sub = type(ctx)(ctx.prop, ctx.facts)
+    sub.guard("R14.3", "constructors", c14.r3_constructors, sub)
+    bad = [o for o in sub.obligations if o["status"] != "ok" and o["instance"].startswith("ones")]
+    ctx.check("R07.1", "Tensor::ones-dims", not bad, "ones-dims:" + ",".join(o["instance"] for o in bad), c.loc(fo), "ones(shape) has the shape's own dimensions in order (identity derivative keeps the input's shape)")
     # leaky slope literal
     fc = ctx.fn(ACT + "Function::create")
     sl = [x for x in walk(fc["body"]) if x.get("k") == "struct" and x["path"].endswith("activation::LeakyReLU")]
@@ -384,7 +389,7 @@ def run(ctx):
     ctx.guard("R07.1", "Linear", linear, ctx)
     ctx.guard("R07.5", "softmax", softmax, ctx)
     ctx.guard("R07.6", "dispatch", dispatch, ctx)
-    ctx.floor("R07.1", 16 + 5, "16 arms + identity/ones/slope facts")
+    ctx.floor("R07.1", 16 + 6, "16 arms + identity/ones/slope facts")
     ctx.floor("R07.2", 4, "four differentiable activations")
     ctx.floor("R07.3", 16 + 8, "16 shape literals + 8 sibling comparisons")
     ctx.floor("R07.4", 16, "16 arms")
